@@ -79,6 +79,7 @@ type Frame struct {
 	closures map[ssa.Value]*ssa.MakeClosure
 	acqState map[string]*State
 	lastAcq  *State
+	priv     []privCell
 }
 
 type iterInfo struct {
@@ -555,10 +556,12 @@ func (f *Frame) run(args []Val, state *State, guard string) ([]Val, *State, stri
 		if b == fn.Recover {
 			continue
 		}
+		prevBlock := f.curBlock
+		f.curBlock = b
 		if !f.enterBlock(b, guard) {
+			f.curBlock = prevBlock
 			continue
 		}
-		f.curBlock = b
 		for _, in := range b.Instrs {
 			f.exec(in)
 		}
@@ -708,6 +711,12 @@ func (f *Frame) enterLoop(li *loopInfo) {
 			}
 		}
 		oldNext := f.vc.get(f.cur, "next")
+		immOld := map[string]string{}
+		for k := range f.vc.comps {
+			if immutableComps[k] {
+				immOld[k] = f.vc.get(f.cur, k)
+			}
+		}
 		f.vc.havocAll(f.cur)
 		for k, v := range keep {
 			f.cur.comp[k] = v
@@ -717,9 +726,19 @@ func (f *Frame) enterLoop(li *loopInfo) {
 				f.vc.havocComp(f.cur, c)
 			}
 		}
+		for k, old := range immOld {
+			f.havocKeepOld(k, old, oldNext)
+		}
+		// private cells not assigned inside the loop keep their contents
+		f.restorePrivateUnwritten(li)
 		f.vc.assume(fmt.Sprintf("(>= %s %s)", f.vc.get(f.cur, "next"), oldNext))
 	} else {
+		oldNext := f.vc.get(f.cur, "next")
 		for _, c := range comps {
+			if immutableComps[c] {
+				f.havocKeepOld(c, f.vc.get(f.cur, c), oldNext)
+				continue
+			}
 			if c == "next" {
 				old := f.vc.get(f.cur, "next")
 				f.vc.havocComp(f.cur, "next")
@@ -893,6 +912,12 @@ func (f *Frame) loopWrites(li *loopInfo) ([]string, bool) {
 			for _, c := range cs {
 				set[c] = true
 			}
+		}
+	}
+	for _, fl := range f.rootContract().Flags {
+		if len(fl) > 0 {
+			f.vc.regComp(flagComp(fl[0]), "Bool")
+			set[flagComp(fl[0])] = true // ghost flags may be set or cleared by events inside the loop
 		}
 	}
 	if li.spec != nil && len(li.spec.Modifies) > 0 {
